@@ -71,7 +71,39 @@ def check(ctx):
     _admission(ctx, repo)
     ctx.rule("C05-R7", "call() hands every function node to eval as a fresh KGCall, so that the per-node compile memo of a statement-level operator node does not outlive the evaluation that specialised it to its argument types")
     check_rewrap(ctx, repo, "C05-R7")
+    ctx.rule("C05-R9", "the compiler front end reads variable values only to decide admission: no value read from the variable state flows into the IR it returns (compiled code is memoised and outlives the value)")
+    check_no_state_in_ir(ctx, repo, "C05-R9")
     ctx.note("callgraph_resolution", cg.resolution_stats())
+
+
+def check_no_state_in_ir(ctx, repo, rid):
+    """The front end may LOOK at a variable's current value to decide whether the expression is compilable, but nothing it read
+    from the variable state may flow into what it returns: compiled code is memoised (per text and per tree node) and outlives
+    the value it was built from.  Taint: every local bound from an expression that reads `<interp>._context[...]` (or from a
+    tainted local); sinks: the returned expressions (and what is stored into the name table handed in)."""
+    f = repo.fn("compiler:_ast_to_ir")
+    ctx.instance(rid, f.fq, "no variable value in the IR")
+    tainted = set()
+    changed = True
+    reads_state = lambda e: any(isinstance(n, ast.Subscript) and isinstance(n.ctx, ast.Load) and "_context" in src(n.value) for n in ast.walk(e))
+    while changed:
+        changed = False
+        for n in walk_local(f.node):
+            if isinstance(n, ast.Assign) and (reads_state(n.value) or any(isinstance(x, ast.Name) and x.id in tainted for x in ast.walk(n.value))):
+                for t in n.targets:
+                    for x in ast.walk(t):
+                        if isinstance(x, ast.Name) and isinstance(x.ctx, ast.Store) and x.id not in tainted:
+                            tainted.add(x.id)
+                            changed = True
+    ctx.floor(rid, "locals of the front end that hold a variable's current value", len(tainted), 1)
+    rets = [r for r in walk_local(f.node) if isinstance(r, ast.Return) and r.value is not None]
+    for r in rets:
+        leak = sorted({x.id for x in ast.walk(r.value) if isinstance(x, ast.Name) and x.id in tainted}) + (["<state read>"] if reads_state(r.value) else [])
+        if leak:
+            ctx.ob(rid, f.fq, "no value read from the variable state flows into the returned IR", False, node=r, construct=f"IR built from the current value of a variable ({', '.join(leak)})",
+                   msg=f"the IR returned at line {r.lineno} contains {leak}, the value a variable had when the expression was compiled: the compiled function is memoised and keeps "
+                       "computing with that value after the variable (or a function parameter of the same name) has changed")
+    ctx.ob(rid, f.fq, f"none of the {len(rets)} returned IR expressions mentions {sorted(tainted)}", True, node=f.node, construct="returned IR is state-free")
 
 
 class _Only:
@@ -531,6 +563,8 @@ MUTATION_SCOPE = ['compiler:_ast_to_ir',
                   'interpreter:KlongInterpreter.__delitem__']
 
 SEEDS = [
+    Seed("scalar-variable-folded-into-ir", "fault", "compiler", "        if tv is int or tv is float:\n            if node not in var_refs:\n                var_refs[node] = f'_v{len(var_refs)}'\n            return ('var', var_refs[node])",
+         "        if tv is int or tv is float:\n            return ('literal', val)", rule="C05-R9"),
     Seed("collect-params-sorted", "fault", "backends/base", "        _walk(ir)\n        return params", "        _walk(ir)\n        return sorted(params)", rule="C05-R3"),
     Seed("refactor-var-syms-list", "refactor", "compiler", "    var_syms = list(var_refs.keys())", "    var_syms = [*var_refs]"),
     Seed("setitem-keeps-compiled", "fault", "interpreter", "        # results since Python operators have different semantics per type.\n        self._compiled_cache.clear()", "        # results since Python operators have different semantics per type.\n        pass", rule="C05-R1"),
